@@ -86,7 +86,7 @@ PROPS = dict(
         assumptions=['BOUNDED stand-in: async fns and Router methods are outside Verus and Kani'],
     ),
     C01=dict(
-        verus=['commitlog', 'tracker'], kani=['rumqttd'], native=['rumqttd'],
+        verus=['commitlog', 'tracker', 'waiters'], kani=['rumqttd'], native=['rumqttd'],
         scope='components proved: commit log (a cursor that starts at the tail and follows continuations reads every later entry exactly once, in order: Verus), park/wake table (Verus + Kani), topic matching of the broker copy (bounded, C12 unit); router-level: exact delivery per subscription explored natively on the real Router (bounded stand-in)',
         residual='whole-history liveness for arbitrary numbers of clients and schedules (link threads, tokio) is not decided; histories outside the explored space',
         trusted_base=['Verus/Z3; Kani/CBMC; rustc as compiled; harness plays the link as link/local.rs does'],
@@ -142,7 +142,7 @@ PROPS = dict(
         assumptions=['BOUNDED stand-in: Kani cannot compile any harness in which Router::new is reachable (compiler ICE, measured) and the handler bodies are outside the Verus subset, so the routing core is explored natively over a stated finite space'],
     ),
     C06=dict(
-        verus=['acklog', 'tracker'], kani=[], native=['rumqttd'],
+        verus=['acklog', 'tracker', 'waiters'], kani=[], native=['rumqttd'],
         scope='rumqttd AckLog::{new,connack,suback,puback,pubrec,pubrel,pubcomp,pingresp,unsuback}: each appends exactly the given ack at the back of the reply queue (FIFO), pubrec holds the QoS 2 publish, pubcomp releases the oldest held publish exactly once; Tracker::try_ready wake-up table',
         residual='the per-packet registration in Router::handle_device_payload (which ack is registered for which packet, one SUBACK code per filter) and ack_device_data (flush to the right Outgoing) are Router methods: Kani cannot build a Router (compiler ICE), Verus cannot take the bodies (drain iterators, closures, retain)',
         assumptions=['stand-in declarations for the packet structs AckLog only moves (never inspects)'],
